@@ -8,6 +8,7 @@ import os
 import re
 import shutil
 import subprocess
+import sys
 import tempfile
 import time
 
@@ -135,6 +136,16 @@ def _parse_tla_tuple_rest(rest):
     return out
 
 
+def _cpu_seconds(pid):
+    """user + system CPU time of a process (all its threads), None when it cannot be read"""
+    try:
+        with open("/proc/%d/stat" % pid) as f:
+            parts = f.read().rsplit(")", 1)[1].split()
+        return (int(parts[11]) + int(parts[12])) / float(os.sysconf("SC_CLK_TCK"))
+    except Exception:  # noqa
+        return None
+
+
 def run_tlc(module, cfg_path, scratch, workers=16, env_extra=None, timeout=3600,
             coverage=False, simulate=None, depth=None, seed=None, heap="8g",
             extra_args=()):
@@ -164,13 +175,42 @@ def run_tlc(module, cfg_path, scratch, workers=16, env_extra=None, timeout=3600,
         env.update({k: str(v) for k, v in env_extra.items()})
     t0 = time.time()
     outpath = tempfile.mktemp(prefix="tlcout_", suffix=".txt", dir=scratch)
-    try:
-        with open(outpath, "w") as outf:
-            proc = subprocess.run(cmd, cwd=SPEC_DIR, env=env, stdout=outf, stderr=subprocess.STDOUT, timeout=timeout)
-    except subprocess.TimeoutExpired as e:
-        raise TLCError("TLC timed out after %ss on %s" % (timeout, module)) from e
-    finally:
-        shutil.rmtree(meta, ignore_errors=True)
+    # TLC 1.8 has been seen to hang with all workers blocked in DiskStateQueue (its StatePoolWriter thread gone) when the
+    # machine is oversubscribed.  A run that burns no CPU for two minutes is killed and started again (at most twice).
+    for attempt in range(3):
+        hung = False
+        try:
+            with open(outpath, "w") as outf:
+                proc = subprocess.Popen(cmd, cwd=SPEC_DIR, env=env, stdout=outf, stderr=subprocess.STDOUT)
+                samples = []
+                while True:
+                    try:
+                        proc.wait(timeout=10)
+                        break
+                    except subprocess.TimeoutExpired:
+                        pass
+                    now = time.time()
+                    if now - t0 > timeout:
+                        proc.kill()
+                        proc.wait()
+                        raise TLCError("TLC timed out after %ss on %s" % (timeout, module))
+                    samples.append((now, _cpu_seconds(proc.pid)))
+                    samples = [x for x in samples if now - x[0] <= 130]
+                    if samples[0][1] is not None and samples[-1][1] is not None and samples[-1][0] - samples[0][0] >= 120 \
+                            and samples[-1][1] - samples[0][1] < 3.0:
+                        hung = True
+                        proc.kill()
+                        proc.wait()
+                        break
+        finally:
+            shutil.rmtree(meta, ignore_errors=True)
+        if not hung:
+            break
+        if attempt == 2:
+            raise TLCError("TLC hung three times on %s" % module)
+        sys.stderr.write("harness: TLC made no progress on %s for two minutes; run again (attempt %d)\n" % (module, attempt + 2))
+        meta = tempfile.mkdtemp(prefix="meta_", dir=scratch)
+        cmd[cmd.index("-metadir") + 1] = meta
     res = TLCResult()
     res.wall_s = time.time() - t0
     res.returncode = proc.returncode
